@@ -148,6 +148,29 @@ HARNESS(h_split)
         CHECK(eq(lim[limit - 1], joined + off, jn - off), "the last field under a limit holds the unsplit rest"); }
     REACH("split round trip");
 }
+HARNESS(h_split_ref)
+{   // split(string sep, str, limit) on ARBITRARY input vs the definitional left-to-right, non-overlapping scan (separators that overlap themselves: "aa" in "aaa")
+    static const char A[2] = {'a', 'b'};
+    char str[N + 1]; for (unsigned i = 0; i < N; ++i) str[i] = sym_small(A, 2);
+    char sep[2] = {sym_small(A, 2), sym_small(A, 2)};
+    unsigned limit = 1 + nondet_below(N + 2);          // 1 .. N + 2 (N + 2 is never reached: at most N / 2 + 1 fields)
+    unsigned fb[N + 2], fe[N + 2], nf = 0, last = 0, i = 0; bool cut = false;
+    while (i + 2 <= N) {
+        if (str[i] == sep[0] && str[i + 1] == sep[1]) {
+            if (nf + 1 >= limit) { cut = true; break; }
+            fb[nf] = last; fe[nf] = i; ++nf; last = i + 2; i += 2;
+        } else ++i;
+    }
+    fb[nf] = last; fe[nf] = N; ++nf; (void)cut;
+    std::vector<std::string> out; out.reserve(N + 2);
+    int e = run([&] { tlx::split(&out, tlx::string_view(sep, (size_t)2), tlx::string_view(str, (size_t)N), (std::string::size_type)limit); });
+    CHECK(e == 0, "split(string sep, str, limit) does not throw");
+    if (e == 0) {
+        CHECK(out.size() == nf, "split(string sep, str, limit) returns the fields of the left-to-right non-overlapping scan");
+        if (out.size() == nf) for (unsigned f = 0; f < N + 2; ++f) if (f < nf) CHECK(eq(out[f], str + fb[f], fe[f] - fb[f]), "split(string sep, str, limit): field contents");
+    }
+    REACH("split vs reference");
+}
 HARNESS(h_quoted)
 {
     // fields over {sep ' ', quote, escape, newline, 'a', NUL}
